@@ -6,7 +6,7 @@ decoder.go + pion VP9Packet), about the model in `Model/Codec/Vp9.lean`.
 
   C06  c06_nonempty, c06_payload_le, c06_seq_consecutive, c06_seq_many, c06_pt_ssrc, c06_marker_only_last
   C08  c08_inv_init, c08_inv_decode, c08_retained_le, c08_fragment_count_le, c08_out_le
-  C03  c03_roundtrip (from ANY decoder state), c03_roundtrip_many
+  C03  c03_roundtrip (from ANY decoder state), c03_roundtrip_many, c03_roundtrip_list
   C07  c07_flush, c07_resync
 
 The VP9 frame header (pion `vp9.Header.Unmarshal`) is part of the model; the theorems only use its
@@ -409,7 +409,7 @@ theorem ss_parse (h : Hdr) (chunk : Bytes) : parseSSData (ssBytes h ++ chunk) = 
   have e3 : ((0x18 : UInt8) >>> 5).toNat + 1 = 1 := by decide
   have e4 : (((0x14 : UInt8) >>> 2) &&& 0x3).toNat = 1 := by decide
   have e5 : (0x01 : UInt8).toNat = 1 := by decide
-  simp only [ssBytes, List.cons_append, List.nil_append, parseSSData, e1, e2, e3, if_true, skipWH]
+  simp only [ssBytes, List.cons_append, List.nil_append, parseSSData, e1, e2, if_true, skipWH]
   rw [if_neg (by simp only [List.length_cons]; omega)]
   simp [skipWH, skipPG, e4, e5]
 
@@ -595,6 +595,28 @@ theorem c03_roundtrip_many (e : Enc) (f g : Bytes) (d : Dec)
   refine ⟨d2, ?_, hcl⟩
   rw [runDec_append, hr1]
   simp only [hr2]
+
+theorem validEnc_cfg (e : Enc) (f : Bytes) : (encode e f).1.cfg = e.cfg := rfl
+
+/-- **C03, any series of frames** through the same encoder / decoder pair, from ANY decoder state:
+the decoder returns exactly the frames, in order, answers "more packets needed" everywhere else and
+ends clean (for a non-empty series). -/
+theorem c03_roundtrip_list (e : Enc) (fs : List Bytes) (d : Dec) (hc : ValidCfg e.cfg) (he : ValidEnc e)
+    (hf : ∀ f ∈ fs, ValidFrame f) :
+    okFrames (runDec d (encodeMany e fs).2).2 = fs ∧ OnlyMoreOk (runDec d (encodeMany e fs).2).2 ∧
+    (fs ≠ [] → Clean (runDec d (encodeMany e fs).2).1) := by
+  induction fs generalizing e d with
+  | nil => exact ⟨rfl, by intro r hr; simp [encodeMany, runDec] at hr, fun h => absurd rfl h⟩
+  | cons f fs ih =>
+    obtain ⟨d1, hr1, hc1⟩ := c03_roundtrip e f d hc he (hf f (by simp))
+    obtain ⟨g1, g2, g3⟩ := ih (encode e f).1 d1 hc (validEnc_encode e f he) (fun x hx => hf x (by simp [hx]))
+    simp only [encodeMany, runDec_append, hr1]
+    refine ⟨?_, onlyMoreOk_append _ _ (onlyMoreOk_frame _ _) g2, ?_⟩
+    · rw [okFrames_append, okFrames_frame, g1]; rfl
+    · intro _
+      cases fs with
+      | nil => simpa [encodeMany, runDec] using hc1
+      | cons a t => exact g3 (by simp)
 
 /-! ## non-vacuity -/
 
